@@ -214,6 +214,10 @@ pub fn apply(root: &mut Value, f: &Fault) -> bool {
                     }
                     None => false,
                 },
+                "append_zero" => {
+                    arr.push(Value::from(0u64));
+                    true
+                }
                 "swap_adjacent" => {
                     if arr.len() >= 2 && arr[0] != arr[1] {
                         arr.swap(0, 1);
